@@ -1162,7 +1162,22 @@ func (c *FnCtx) execSimple(p *Path, ins ssa.Instruction) {
 			c.note("range over string in " + fr.fn.Name() + ": iteration abstracted (havoc)")
 		}
 		fr.regs[x] = r
-	case *ssa.Select, *ssa.Send, *ssa.MakeChan:
+	case *ssa.Select:
+		r := c.symbolic(p, x.Name(), x.Type())
+		if !x.Blocking && len(x.States) == 1 && x.States[0].Dir == types.RecvOnly && r.K == KTuple && len(r.Fs) >= 1 {
+			// the cancellation poll `select { case <-ctx.Done(): ... default: }`: a closed channel is always
+			// ready; a Done channel that is not closed never is (trusted context contract, see context.spec)
+			ch := c.val(p, x.States[0].Chan)
+			arr := c.heapGet(&p.heap, "$g:chanClosed", "(Array Int Bool)")
+			closed := fmt.Sprintf("(select (select %s 0) %s)", arr, ch.T)
+			p.assume(fmt.Sprintf("(= (= %s 0) %s)", r.Fs[0].T, closed))
+			p.assume(fmt.Sprintf("(or (= %s 0) (= %s (- 1)))", r.Fs[0].T, r.Fs[0].T))
+			c.note("non-blocking receive poll in " + fr.fn.Name() + ": modelled by the trusted Done-channel contract")
+		} else {
+			c.note("select in " + fr.fn.Name() + ": outside subset, result havocked")
+		}
+		fr.regs[x] = r
+	case *ssa.Send, *ssa.MakeChan:
 		c.note("channel operation in " + fr.fn.Name() + ": outside subset, result havocked")
 		if v, ok := ins.(ssa.Value); ok {
 			fr.regs[v] = c.symbolic(p, v.Name(), v.Type())
